@@ -10,6 +10,9 @@ CONSTANTS
   Membership = FALSE
   TrackLate = FALSE
   Noise = TRUE
+  Aperture = FALSE
+  MinSize = 1
+  StaleSize = FALSE
   Light = TRUE
 INVARIANT NoViolation
 CHECK_DEADLOCK FALSE
